@@ -133,6 +133,15 @@ def gen_cases(ck: Check):
         for _ in range(10 if thorough else 4):
             kk = rng.randint(1, min(10, L - 1))
             add(frames, b"", sorted(rng.sample(range(1, L), kk)))
+    # 5. very many frames in ONE chunk (and in two or three): every one is delivered when its chunk has been handed over,
+    # however many there are
+    for k in ([100, 129, 257, 1000, 4000] if thorough else [129, 600 + rng.randrange(400)]):
+        frames = [(rng.choice(TYPES), payload(rng, rng.choice([0, 0, 1, 2, 3]))) for _ in range(k)]
+        stream = b"".join(enc_frame(*f) for f in frames)
+        tf = enc_frame(rng.choice(TYPES), payload(rng, 9))
+        add(frames, b"", [])
+        add(frames, tf[: rng.randrange(1, len(tf))], [])
+        add(frames, b"", sorted(rng.sample(range(1, len(stream)), 2)))
     return cases
 
 
